@@ -61,12 +61,15 @@ def sym(ctx, cfg):
     except (ValueError, RuntimeError) as ex:
         msg = str(ex)
         if "No target PSMs were detected" in msg or "No decoy PSMs were detected" in msg:
-            # a training fold without targets or decoys: explicit, documented error
-            return PathOutcome([], inputs, None, "legit_exc", note=type(ex).__name__ + "(" + msg[:40] + ")")
+            # a training fold without targets or decoys: explicit, documented error; the fold layout made
+            # before the run stopped is still checked
+            fp = _fold_props(syms, split_rec, folds)
+            return PathOutcome(fp, inputs, None, "assert" if fp else "legit_exc", note=type(ex).__name__ + "(" + msg[:40] + ")")
         if "No PSMs were detected" in msg and (_some_training_set_empty(split_rec, folds) or cap is not None):
             # one fold holds every PSM (fewer spectra than folds can separate), or the cap leaves a file's share
             # empty: nothing to train on - explicit error
-            return PathOutcome([], inputs, None, "legit_exc", note="ValueError(No PSMs: empty training set)")
+            fp = _fold_props(syms, split_rec, folds)
+            return PathOutcome(fp, inputs, None, "assert" if fp else "legit_exc", note="ValueError(No PSMs: empty training set)")
         return PathOutcome([], inputs, None, "exc", note=type(ex).__name__ + ":" + msg[:80])
     except Exception as ex:
         return PathOutcome([], inputs, None, "exc", note=type(ex).__name__ + ":" + str(ex)[:80])
@@ -140,6 +143,22 @@ def sym(ctx, cfg):
             props.append(("calibration_call%d_is_fold%d_of_file%d" % (ci, k, fid), z3.BoolVal(got == want and len(ins) == len(rows))))
     props.append(("descs_default", z3.BoolVal(list(descs) == [True] * len(syms))))
     return PathOutcome(props, inputs, None)
+
+
+def _fold_props(syms, split_rec, folds):
+    """fold-layout obligations that need no scores: usable when the run ended in a documented error"""
+    import z3
+    props = []
+    for fid, (s, fl) in enumerate(zip(syms, split_rec)):
+        flat = [i for f in fl for i in f]
+        props.append(("file%d_fold_count" % fid, z3.BoolVal(len(fl) == folds)))
+        props.append(("file%d_folds_partition_rows" % fid, z3.BoolVal(sorted(flat) == list(range(s["n"])))))
+        foldof = {i: k for k, f in enumerate(fl) for i in f}
+        for a in range(s["n"]):
+            for b in range(a + 1, s["n"]):
+                if foldof.get(a) != foldof.get(b):
+                    props.append(("file%d_rows_%d_%d_same_spectrum_same_fold" % (fid, a, b), z3.Not(brewlib.key_eq(s, a, b))))
+    return props
 
 
 def _some_training_set_empty(split_rec, folds):
@@ -323,9 +342,9 @@ def real_brew(cfg, inp):
         except (ValueError, RuntimeError) as ex:
             msg = str(ex)
             if "No target PSMs were detected" in msg or "No decoy PSMs were detected" in msg or "no target PSMs could be found below" in msg:
-                return dict(exception=type(ex).__name__ + ":" + msg[:60], violation=_leaks(log, keys, split_rec))
+                return dict(exception=type(ex).__name__ + ":" + msg[:60], violation=_leaks(log, keys, split_rec, folds))
             if "No PSMs were detected" in msg and (_some_training_set_empty(split_rec, folds) or inp.get("cap") is not None):
-                return dict(exception=type(ex).__name__ + ":" + msg[:60], violation=_leaks(log, keys, split_rec))
+                return dict(exception=type(ex).__name__ + ":" + msg[:60], violation=_leaks(log, keys, split_rec, folds))
             return dict(exception=repr(ex), violation="brew raised %r (keys %s, folds %d, prediction chunk %s)" % (ex, keys, folds, inp["chunk_prediction"]))
         except Exception as ex:
             return dict(exception=repr(ex), violation="brew raised %r (keys %s, folds %d, prediction chunk %s)" % (ex, keys, folds, inp["chunk_prediction"]))
@@ -334,7 +353,7 @@ def real_brew(cfg, inp):
             Dm.OnDiskPsmDataset._split = orig_split
     if len(models) != folds:
         return dict(violation="%d models for %d folds" % (len(models), folds))
-    v = _leaks(log, keys, split_rec)
+    v = _leaks(log, keys, split_rec, folds)
     if v:
         return dict(violation=v)
     pred = {}
@@ -370,11 +389,15 @@ def real_brew(cfg, inp):
     return dict(outputs=None, violation=None)
 
 
-def _leaks(log, keys, split_rec):
+def _leaks(log, keys, split_rec, folds=None):
     """integrity checks that need no scores: usable even when the run ended in a documented error"""
     for fid, fl in enumerate(split_rec):
         foldof = {i: k for k, f in enumerate(fl) for i in f}
         ks = keys[fid]
+        if folds is not None and len(fl) != folds:
+            return "file %d: %d folds were requested, the PSMs were split into %d: %s (spectrum keys %s)" % (fid, folds, len(fl), fl, ks)
+        if sorted(i for f in fl for i in f) != list(range(len(ks))):
+            return "file %d: the folds %s are not a partition of the %d PSMs" % (fid, fl, len(ks))
         for a in range(len(ks)):
             for b in range(len(ks)):
                 if ks[a] == ks[b] and foldof.get(a) != foldof.get(b):
